@@ -258,6 +258,7 @@ class Options:
     bindings: dict | None = None
     max_unknown: int = 2
     budget_s: float = 40.0
+    ort_reject_is_violation: bool = False
 
 
 def model_io(model, prog):
@@ -392,6 +393,10 @@ def validate(prog, cj, model, shapes, opts: Options, ref_fn=None, pre=None) -> d
     if opts.selfcheck:
         r = selfcheck(prog, cj, model, shapes, dtypes, pos_names, opts)
         sel = r
+        if r.get("ort_rejects") and not opts.ort_reject_is_violation:
+            # other properties leave "ONNX Runtime cannot load the model" to C01/C03
+            out.update(status="selfcheck_failed", reason="ONNX Runtime rejects the model (reported by C01/C03): " + r["ort_rejects"][:200], selfcheck=sel)
+            return out
         if r.get("ort_rejects"):
             out.update(status="candidate", kind="invalid_model", reason="ONNX Runtime rejects the model: " + r["ort_rejects"], selfcheck=sel)
             return _replay_invalid(prog, cj, model, shapes, dtypes, pos_names, out, opts)
